@@ -27,6 +27,22 @@ CLAIMED = {
    note="trusted: code/label projection (gbverif/drivers/factorize.py); bounds: rows<=7 x 3 labels on the spec, rows<=12 on the code; thresholds scaled down via core.THRESHOLD_FOR_CHUNKED_FACTORIZE",
    technique="TLA+ spec GBFactorize model-checked with TLC + trace validation (Trace_GBFactorize) of real factorizations",
    ref="DESIGN.md section 6/C02"),
+ "C08": dict(
+   text="TLC checks the cumulative kernel machine (GBCumulative: running partial per group, one RowCum action per row; "
+        "null-key and unselected rows are stutters) against the prefix-reduction definition over the row history in every "
+        "state; every judged row of every recorded real cumsum/cummin/cummax/cumcount call is one observation of a RowCum "
+        "action in TLC's replay (exactness through 2^53/2^55-based embeddings).",
+   note="trusted: embeddings/projection (abstract.py, drivers/rowwise.py); bounds: rows<=6 x 2 groups on the spec, rows<=60 on the code",
+   technique="TLA+ spec GBCumulative model-checked with TLC + per-row trace validation (Trace_GBCumulative)",
+   ref="DESIGN.md section 6/C08"),
+ "C09": dict(
+   text="TLC checks the rolling machine (GBRolling: per-group circular buffer, write position, non-null count, running sum / "
+        "extremum with recomputation, shift/diff) against the sliding-window definition over the row history in every state "
+        "(1 group rows<=6: 117M states in thorough); every judged row of every recorded real rolling_sum/mean/min/max, shift, "
+        "diff call in both output layouts is one observation of a RowRoll action in TLC's replay.",
+   note="trusted: embeddings/projection incl. the mapping of the group-sorted layout back to row order; bounds: window<=3 on the spec, <=5 on the code",
+   technique="TLA+ spec GBRolling model-checked with TLC + per-row trace validation (Trace_GBRolling)",
+   ref="DESIGN.md section 6/C09"),
 }
 REASONS = {}
 props = [json.loads(l) for l in open("/verif/properties.jsonl")]
